@@ -19,6 +19,7 @@ type SolveResult struct {
 	Seconds float64
 	Output  string // full output of the deciding solver (model on sat)
 	All     map[string]string
+	Candidate string // model of the relaxed query (candidate counterexample), if any
 }
 
 type solverSpec struct {
@@ -52,18 +53,25 @@ var solverSpecs = []solverSpec{
 
 func itoa(i int) string { return strconv.Itoa(i) }
 
-// Solve races the solvers on script. which restricts to named solvers (nil = all).
-// requireAll (thorough): wait for every solver, to cross-check.
-func Solve(script, dir, base string, timeoutS int, which []string) SolveResult {
+// Solve races the solvers. script is the full query; relaxed (may be empty) is a weakening
+// of it (quantified assumptions dropped after pre-instantiation): unsat of either proves the
+// obligation, sat counts only for the full query. A model of the relaxed query is returned as
+// a candidate counterexample (Candidate) when nothing decides.
+func Solve(script, relaxed, dir, base string, timeoutS int, which []string) SolveResult {
 	os.MkdirAll(dir, 0o755)
 	ctx, cancel := context.WithTimeout(context.Background(), time.Duration(timeoutS+2)*time.Second)
 	defer cancel()
 	type res struct {
 		name, status, out string
 		secs              float64
+		relaxed           bool
 	}
-	ch := make(chan res, len(solverSpecs))
-	n := 0
+	type job struct {
+		sp      solverSpec
+		script  string
+		relaxed bool
+	}
+	var jobs []job
 	for _, sp := range solverSpecs {
 		if which != nil {
 			ok := false
@@ -76,17 +84,27 @@ func Solve(script, dir, base string, timeoutS int, which []string) SolveResult {
 				continue
 			}
 		}
-		n++
-		sp := sp
+		jobs = append(jobs, job{sp, script, false})
+		if relaxed != "" && sp.name != "z3-4.8" {
+			jobs = append(jobs, job{sp, relaxed, true})
+		}
+	}
+	ch := make(chan res, len(jobs))
+	for _, j := range jobs {
+		j := j
 		go func() {
-			s := script
-			if sp.prep != nil {
-				s = sp.prep(s)
+			s := j.script
+			if j.sp.prep != nil {
+				s = j.sp.prep(s)
 			}
-			f := filepath.Join(dir, base+"."+sp.name+".smt2")
+			tag := ""
+			if j.relaxed {
+				tag = ".qf"
+			}
+			f := filepath.Join(dir, base+"."+j.sp.name+tag+".smt2")
 			os.WriteFile(f, []byte(s), 0o644)
 			t0 := time.Now()
-			cmd := exec.CommandContext(ctx, sp.bin, sp.args(f, timeoutS)...)
+			cmd := exec.CommandContext(ctx, j.sp.bin, j.sp.args(f, timeoutS)...)
 			var out bytes.Buffer
 			cmd.Stdout = &out
 			cmd.Stderr = &out
@@ -106,15 +124,28 @@ func Solve(script, dir, base string, timeoutS int, which []string) SolveResult {
 				st = "timeout"
 			}
 			os.Remove(f)
-			ch <- res{sp.name, st, o, secs}
+			ch <- res{j.sp.name, st, o, secs, j.relaxed}
 		}()
 	}
 	all := map[string]string{}
 	var best *res
+	candidate := ""
 	t0 := time.Now()
-	for i := 0; i < n; i++ {
+	for i := 0; i < len(jobs); i++ {
 		r := <-ch
-		all[r.name] = r.status
+		key := r.name
+		if r.relaxed {
+			key += "(relaxed)"
+		}
+		all[key] = r.status
+		if r.relaxed {
+			if r.status == "sat" && candidate == "" {
+				candidate = r.out
+			}
+			if r.status != "unsat" {
+				continue
+			}
+		}
 		if r.status == "unsat" || r.status == "sat" {
 			rr := r
 			best = &rr
@@ -127,11 +158,15 @@ func Solve(script, dir, base string, timeoutS int, which []string) SolveResult {
 		}
 	}
 	if best == nil {
-		return SolveResult{Status: "error", All: all}
+		return SolveResult{Status: "error", All: all, Candidate: candidate}
 	}
 	secs := best.secs
 	if best.status != "unsat" && best.status != "sat" {
 		secs = time.Since(t0).Seconds()
 	}
-	return SolveResult{Status: best.status, Solver: best.name, Seconds: secs, Output: best.out, All: all}
+	name := best.name
+	if best.relaxed {
+		name += "+inst"
+	}
+	return SolveResult{Status: best.status, Solver: name, Seconds: secs, Output: best.out, All: all, Candidate: candidate}
 }
